@@ -346,3 +346,100 @@ func init() {
 }
 
 var HostileNames []string
+
+// ---------------------------------------------------------------------------
+// Declared parameter objects with `ignore-unexported:"true"` and unexported
+// fields between the exported ones (reflect.StructOf cannot build those).
+// Exported fields are named F<i>, i = index in the template's field list, so
+// that the probe can decode them by name. Unexported fields must be skipped
+// by dig and left at their zero value.
+// ---------------------------------------------------------------------------
+
+type IU0 struct {
+	dig.In `ignore-unexported:"true"`
+	x      *T0 //nolint:unused
+	F0     *T1
+	y      int //nolint:unused
+	F1     *T2 `optional:"true"`
+	z      *T3 //nolint:unused
+}
+type IU1 struct {
+	dig.In `ignore-unexported:"true"`
+	F0     *T0
+	u      string //nolint:unused
+	F1     []*T1  `group:"g"`
+}
+type IU2 struct {
+	dig.In `ignore-unexported:"true"`
+	a, b   *T2 //nolint:unused
+	F0     *T2 `name:"a"`
+	F1     *T0
+}
+type IU3 struct {
+	dig.In `ignore-unexported:"true"`
+	F0     *T3
+	hidden *T3 //nolint:unused
+	F1     I0
+}
+type IU4 struct {
+	dig.In `ignore-unexported:"true"`
+	w      *T1 //nolint:unused
+	F0     IU0
+	F1     *T1 `optional:"true"`
+}
+type IU5 struct {
+	dig.In `ignore-unexported:"true"`
+	q      []*T0 //nolint:unused
+	F0     []*T0 `group:"g,soft"`
+	v      *T1   //nolint:unused
+	F1     *T1
+}
+
+type declIn struct {
+	RT     reflect.Type
+	Fields []Param
+}
+
+var declIns = map[string]declIn{}
+var DeclInNames = []string{"IU0", "IU1", "IU2", "IU3", "IU4", "IU5"}
+
+func init() {
+	iu0 := []Param{{T: "T1"}, {T: "T2", Opt: true}}
+	declIns["IU0"] = declIn{reflect.TypeOf(IU0{}), iu0}
+	declIns["IU1"] = declIn{reflect.TypeOf(IU1{}), []Param{{T: "T0"}, {T: "T1", Group: "g"}}}
+	declIns["IU2"] = declIn{reflect.TypeOf(IU2{}), []Param{{T: "T2", Name: "a"}, {T: "T0"}}}
+	declIns["IU3"] = declIn{reflect.TypeOf(IU3{}), []Param{{T: "T3"}, {T: "I0"}}}
+	declIns["IU4"] = declIn{reflect.TypeOf(IU4{}), []Param{{IsObj: true, Decl: "IU0", Obj: iu0}, {T: "T1", Opt: true}}}
+	declIns["IU5"] = declIn{reflect.TypeOf(IU5{}), []Param{{T: "T0", Group: "g", Soft: true}, {T: "T1"}}}
+}
+
+// DeclParam returns the IR parameter for a declared parameter object.
+func DeclParam(name string) Param {
+	d := declIns[name]
+	c := (&Case{Ops: []Op{{F: &Fn{P: []Param{{IsObj: true, Decl: name, Obj: d.Fields}}}}}}).Clone()
+	return c.Ops[0].F.P[0]
+}
+
+// unexportedZero reports whether every unexported field of a declared
+// parameter object (recursively) still holds its zero value.
+func unexportedZero(v reflect.Value) bool {
+	t := v.Type()
+	for i := 0; i < t.NumField(); i++ {
+		f := t.Field(i)
+		if f.Anonymous {
+			continue
+		}
+		if f.PkgPath != "" { // unexported
+			if !v.Field(i).IsZero() {
+				return false
+			}
+			continue
+		}
+		if f.Type.Kind() == reflect.Struct && dig.IsIn(f.Type) {
+			if !unexportedZero(v.Field(i)) {
+				return false
+			}
+		}
+	}
+	return true
+}
